@@ -6,6 +6,7 @@ import "strconv"
 
 func init() {
 	vRegister("VerifC14BinaryCPU", VerifC14BinaryCPU)
+	vRegister("VerifC14ContentionSample", VerifC14ContentionSample)
 }
 
 // vPutWord appends w in the given word size / endianness.
@@ -119,4 +120,49 @@ func VerifC14BinaryCPU() {
 	}
 	vAssert(p.CheckValid() == nil, "C14.cpu.valid: converted profile is not valid")
 	vObserve(len(p.Sample), len(p.Location), p.Period)
+}
+
+// vDigitsP returns a decimal number of n symbolic digits (no leading zero) and its value.
+func vDigitsP(tag string, n int) (string, int64) {
+	b := make([]byte, n)
+	var v int64
+	for i := range b {
+		d := vByte(tag + strconv.Itoa(i))
+		vAssume(d >= '0')
+		vAssume(d <= '9')
+		if i == 0 && n > 1 {
+			vAssume(d != '0')
+		}
+		b[i] = d
+		v = v*10 + int64(d-'0')
+	}
+	return string(b), v
+}
+
+// VerifC14ContentionSample: a contention record "delay count @ addr..." is
+// converted with the documented values: count multiplied by the sampling
+// period, delay scaled by period/GHz when cycles/second is known.
+func VerifC14ContentionSample() {
+	ds, delay := vDigitsP("delay", 1+vChoice("ndelay", 3))
+	cs, count := vDigitsP("count", 1+vChoice("ncount", 3))
+	line := ds + " " + cs + " @ 0x10 0x20"
+	period := []int64{0, 1, 100}[vChoice("period", 3)]
+	cpuHz := []int64{0, 1000000000, 2000000000}[vChoice("cpuhz", 3)]
+	value, addrs, err := parseContentionSample(line, period, cpuHz)
+	vReach("C14.contention:parsed")
+	if err != nil {
+		vAssert(false, "C14.contention.rejected: a well-formed contention record was rejected")
+		return
+	}
+	vAssert(len(addrs) == 2 && addrs[0] == 0x10 && addrs[1] == 0x20, "C14.contention.addrs: stack addresses changed")
+	wantCount, wantDelay := count, delay
+	if period > 0 {
+		wantCount = count * period
+		if cpuHz > 0 {
+			wantDelay = int64(float64(delay) * float64(period) / (float64(cpuHz) / 1e9))
+		}
+	}
+	vAssert(len(value) == 2 && value[0] == wantCount, "C14.contention.count: contention count is not the record's count times the sampling period")
+	vAssert(len(value) == 2 && value[1] == wantDelay, "C14.contention.delay: delay is not the record's delay scaled by period/GHz")
+	vObserve(value[0], value[1])
 }
